@@ -4,9 +4,10 @@ From PV Require Import Base.Sx Model.Forest Model.Table Model.LRDriver Model.Sca
 <<<<<<< HEAD
   Validators.TableStruct Validators.ForestSound Validators.TableComplete Extract.Codec.
   Validators.TableStruct Extract.Codec Extract.RunC19.
-=======
   Validators.TableStruct Extract.Codec Extract.RunC12.
->>>>>>> build-C12
+=======
+  Validators.TableStruct Extract.Codec Extract.RunC09.
+>>>>>>> build-C09
 Import ListNotations.
 Local Open Scope N_scope.
 
@@ -76,9 +77,10 @@ Definition run (cmd : N) (arg : sx) : sx :=
   | 191 => run_c19_build arg
   | 192 => run_c19_match arg
   | 193 => run_c19_sort arg
-=======
   | 120 => run_c12_120 arg
   | 121 => run_c12_121 arg
->>>>>>> build-C12
+=======
+  | 90 | 91 | 92 | 93 | 94 | 95 => run_c09 cmd arg
+>>>>>>> build-C09
   | _ => L [A 999999]
   end.
